@@ -14,6 +14,7 @@ pub mod c13;
 pub mod c16;
 pub mod c18;
 pub mod c21;
+pub mod c33;
 pub mod dbg;
 pub mod c22;
 pub mod c24;
@@ -47,6 +48,7 @@ pub fn dispatch(id: &str, args: &Args) -> i32 {
         "C27" => drive_main(&c27::C27, args),
         "C31" => drive_main(&c31::C31, args),
         "C32" => drive_main(&c32::C32, args),
+        "C33" => drive_main(&c33::C33, args),
         "dbg" => crate::props::dbg::main(),
         _ => {
             eprintln!("unknown property {id}");
